@@ -606,3 +606,104 @@ def param_cases(rng: random.Random, n, first_id):
                       "thetas": [theta_item(rng) for _ in range(rng.randint(1, 4))],
                       "omegas": omega_records(rng), "sigmas": omega_records(rng, 2)})
     return cases
+
+
+# --------------------------------------------------------------------------- general linear (ADVAN5/7) and $DES (ADVAN6/13) models
+
+COMP_NAMES = ["DEPOT", "CENTRAL", "PERIPH", "COMP3", "EFFECT", "TRANSIT", "GUT", "LIVER"]
+
+
+def general_case(rng: random.Random, cid):
+    """$MODEL with 2-4 compartments (DEPOT / CENTRAL at any position or absent; DEFDOSE, DEFOBS, NODOSE options), a random
+    linear flow graph written either with the Kij / KiTj / Ki0 / KiT0 names of ADVAN5/7 or as $DES right-hand sides."""
+    n = rng.choice([2, 3, 3, 4])
+    names = rng.sample(COMP_NAMES[:2], rng.choice([0, 1, 2, 2])) + rng.sample(COMP_NAMES[2:], 4)
+    names = names[:n] if len(names) >= n else names
+    names = names[:n]
+    rng.shuffle(names)
+    comps = [{"name": nm, "defdose": False, "defobs": False, "nodose": False} for nm in names]
+    if rng.random() < 0.35:
+        comps[rng.randrange(n)]["defdose"] = True
+    if rng.random() < 0.35:
+        comps[rng.randrange(n)]["defobs"] = True
+    for c in comps:
+        if not c["defdose"] and rng.random() < 0.3:
+            c["nodose"] = True
+    if all(c["nodose"] for c in comps):
+        comps[rng.randrange(n)]["nodose"] = False
+    # flows: a spanning chain in random order plus extras, at least one output
+    order = list(range(1, n + 1))
+    rng.shuffle(order)
+    edges = {(order[i], order[i + 1]) for i in range(n - 1)}
+    for i in range(1, n + 1):
+        for j in range(1, n + 1):
+            if i != j and rng.random() < 0.2:
+                edges.add((i, j))
+    outs = {i for i in range(1, n + 1) if rng.random() < 0.4} or {rng.randrange(1, n + 1)}
+    edges |= {(i, 0) for i in outs}
+    des = rng.random() < 0.45
+    advan = rng.choice([6, 13]) if des else rng.choice([5, 5, 7])
+    prog, nth = [], 0
+
+    def value():
+        nonlocal nth
+        if nth < 8:
+            nth += 1
+            return var(f"THETA({nth})")
+        return num(*rng.choice(PARAM_VALUES))
+
+    rate_name = {}
+    for (i, j) in sorted(edges):
+        if des:
+            nm = f"R{i}{j}" if rng.random() < 0.7 else rng.choice(["KEL", "KTR", "QQ", "CLV"]) + f"{i}{j}"
+        else:
+            nm = rng.choice([f"K{i}{j}", f"K{i}T{j}"])
+        rate_name[(i, j)] = nm
+        e = value()
+        if rng.random() < 0.2:
+            e = bin_("mul", e, fn("EXP", var("ETA(1)")))
+        prog.append(asg(nm, e))
+    for k in rng.sample(range(1, n + 1), rng.choice([0, 1, 1, 2])):
+        prog.append(asg(f"S{k}", value()))
+    alag = rng.sample(range(1, n + 1), rng.choice([0, 0, 1]))
+    bio = rng.sample(range(1, n + 1), rng.choice([0, 0, 1]))
+    for k in alag:
+        prog.append(asg(f"ALAG{k}", value()))
+    for k in bio:
+        prog.append(asg(f"F{k}", value()))
+    desprog = []
+    if des:
+        for i in range(1, n + 1):
+            terms = []
+            for (a, b), nm in sorted(rate_name.items()):
+                if b == i:
+                    terms.append(("+", bin_("mul", var(nm), var(f"A({a})"))))
+                if a == i:
+                    terms.append(("-", bin_("mul", var(nm), var(f"A({i})"))))
+            rng.shuffle(terms)
+            e = None
+            for sign, t in terms:
+                if e is None:
+                    e = t if sign == "+" else neg(t, rng.random() < 0.5)
+                else:
+                    e = bin_("add" if sign == "+" else "sub", e, t)
+            desprog.append(asg(f"DADT({i})", e if e is not None else num(0)))
+    err = [asg("IPRED", var("F")), asg("Y", bin_("add", var("IPRED"), bin_("mul", var("IPRED"), var("EPS(1)"))))]
+    envs = []
+    for _ in range(2):
+        vals = rng.sample(PARAM_VALUES, 8)
+        env = {f"THETA({i + 1})": list(vals[i]) for i in range(8)}
+        env["ETA(1)"] = list(rng.choice([(0, 1), (1, 1), (-1, 1)]))
+        env["ETA(2)"] = [1, 1]
+        env["EPS(1)"] = list(rng.choice([(3, 1), (-1, 1), (1, 2)]))
+        env["RATE"] = [5, 1]
+        env["T"] = [5, 2]
+        envs.append(env)
+    amt = [list(a) for a in rng.sample(AMOUNTS, n)]
+    return {"id": cid, "kind": "advan", "advan": advan, "trans": 1, "prog": prog, "err": err, "des": desprog, "comps": comps,
+            "amt": amt, "obscmt": 0, "dosecmt": 0, "ratemode": "none", "envs": envs, "ntheta": 8,
+            "scale": "general", "alag": alag, "bio": bio, "cmtmode": "none", "omit_trans1": True, "edges": sorted(edges)}
+
+
+def general_cases(rng: random.Random, first_id, n):
+    return [general_case(rng, first_id + i) for i in range(n)]
